@@ -6305,6 +6305,13 @@ func ruleNextLabelLoadedAsStored(r *Run) {
 		r.undecided("labelmap.Data.loadLabelIDs", "anchor not found")
 		return
 	}
+	// the load may sit in a helper of the loader (d.loadNextLabel(store, ctx))
+	for _, g := range withHelpers(f) {
+		if len(fieldStores(g, "Data", "NextLabel")) > 0 {
+			f = g
+			break
+		}
+	}
 	n := 0
 	for _, st := range fieldStores(f, "Data", "NextLabel") {
 		n++
@@ -9529,6 +9536,10 @@ func ruleGetAllOffersEveryRecord(r *Run) {
 func ruleSetBlankComparesEveryOctant(r *Run) {
 	w := r.W
 	f := w.method("datatype/common/labels", "Block", "setBlank")
+	if f == nil {
+		// the single-use shortcut may have been inlined into its caller
+		f = w.method("datatype/common/labels", "Block", "Downres")
+	}
 	if f == nil || len(f.Blocks) == 0 {
 		r.undecided("labels.Block.setBlank", "anchor not found")
 		return
